@@ -13,8 +13,8 @@
    the value log with the recorded digest (fix ccd70f3); hash tree: ResetSize to the COMMITTED id when
    larger (fix 2077e08), "up to date" when EQUAL to the precommitted id, re-appended from the tx log
    otherwise).  Rewinds below the flushed size are truncations (fix 09014a8, Crash/Storage.v);
-   ahtree.ResetSize = sync() + rewind of the tree's commit log, not fsynced (fix 6a85281, c_ahtreset =
-   RCut); the size checks of ahtree.OpenWith are the comparison "digest log at least as long as the
+   ahtree.ResetSize = sync() + rewind of the tree's commit log (fix 6a85281) + its fsync (fix 0b488aa,
+   c_ahtreset = RSync); the size checks of ahtree.OpenWith are the comparison "digest log at least as long as the
    commit log says" (fix 34e747f only makes it wrap-around free).  NOT modelled: I/O errors (every
    storage call succeeds or the process crashes: the deferred commit-log rewind of an incomplete
    commit loop, fix 8728288, is never taken) and DiscardPrecommittedTxsSince (which since 8728288
@@ -40,18 +40,17 @@ Variable H : bytes -> bytes.
 (* ahtree.ResetSize to a smaller size: what happens to the tree's commit log *)
 Inductive rmode :=
 | RMem    (* sizes lowered in memory only (the code before fix 6a85281) *)
-| RCut    (* the commit log is rewound = truncated, NOT fsynced (the code as it is, fix 6a85281) *)
-| RSync.  (* rewound and fsynced (proposed repair fixes/C03-aht-durable-reset.diff) *)
+| RCut    (* the commit log is rewound = truncated, NOT fsynced (the code between 6a85281 and 0b488aa) *)
+| RSync.  (* rewound and fsynced (the code as it is, fix 0b488aa = fixes/C03-aht-durable-reset.diff) *)
 
 Record cfg := mkCfg {
   c_thld : N;        (* AHTOpts.SyncThld *)
   c_maxact : N;      (* MaxActiveTransactions *)
   c_prealloc : bool; (* PreallocFiles *)
   c_psize : N;       (* bytes preallocated (zero-filled) in the tx and commit logs *)
-  c_ahtreset : rmode; (* NOT an option of the store: which ahtree.ResetSize the model runs.  RCut = the code
-                        as it is; RSync = the code with the proposed repair fixes/C03-aht-durable-reset.diff
-                        (the tree's commit log is rewound AND fsynced before the payload/digest logs can be
-                        truncated); RMem = history *)
+  c_ahtreset : rmode; (* NOT an option of the store: which ahtree.ResetSize the model runs.  RSync = the code
+                        as it is (fix 0b488aa: the tree's commit log is rewound AND fsynced before the
+                        payload/digest logs can be truncated); RCut, RMem = history (Crash/Refuted.v) *)
   c_preallocfix : bool; (* NOT an option: true = proposed repair fixes/C03-prealloc-clog-trim.diff (OpenWith
                         ignores a partially written last commit-log entry of a preallocated commit log) *)
   c_ahtsync : bool   (* NOT an option of the store: true = the code since fix b260503 (store.sync() fsyncs the
@@ -205,7 +204,7 @@ Definition aht_reset (m : rmode) (a : aht) (n : N) : res aht :=
            | Some c1 => Ok (mkAht (a_d a1) c1 n n 0)
            end
        | RSync =>
-           (* proposed repair: ... and fsynced *)
+           (* fix 0b488aa: ... and fsynced *)
            match f_setoffset (a_c a1) (12 * n) with
            | None => Err EOther
            | Some c1 => Ok (mkAht (a_d a1) (f_sync c1) n n 0)
